@@ -297,3 +297,133 @@ Example and_op_nonvacuous : valid st0 oa /\ valid st0 ob /\
   view (fst (and_op st0 oa ob)) oa = view st0 oa /\
   r_gpus (view (fst (and_op st0 oa ob)) (snd (and_op st0 oa ob))) = [7].
 Proof. repeat split; try (cbn; lia). Qed.
+
+(* ---------- LauncherRegistry.find: each alternative in turn, then each host ---------- *)
+
+Lemma union_single : forall r h, union_match [r] h =
+  match match_simple r h with Some s => Some (0%nat, s) | None => None end.
+Proof. intros. rewrite union_first. cbn. destruct (match_simple r h); reflexivity. Qed.
+
+(* first host, in the order of launchers.py, that the simple requirement matches *)
+Fixpoint find_host (r : req) (hs : list host) (j : nat) : option nat :=
+  match hs with
+  | [] => None
+  | h :: hs' => match match_simple r h with Some _ => Some j | None => find_host r hs' (S j) end
+  end.
+
+Lemma launcher_fn_single : forall r hs j,
+  launcher_fn [r] hs j = match find_host r hs j with Some j' => Some (0%nat, j') | None => None end.
+Proof.
+  intros r hs; induction hs as [|h hs IH]; intros j; cbn [launcher_fn find_host]; [reflexivity|].
+  rewrite union_single. destruct (match_simple r h); [reflexivity|apply IH].
+Qed.
+
+Lemma find_host_spec : forall r hs j j',
+  find_host r hs j = Some j' ->
+  exists d h, j' = (j + d)%nat /\ nth_error hs d = Some h /\ satisfies r h /\
+    (forall d' h', (d' < d)%nat -> nth_error hs d' = Some h' -> ~ satisfies r h').
+Proof.
+  intros r hs; induction hs as [|h hs IH]; intros j j' H; cbn [find_host] in H; [discriminate|].
+  destruct (match_simple r h) eqn:E.
+  - inversion H; subst. exists 0%nat, h.
+    split; [lia|]. split; [reflexivity|]. split; [eapply match_sound; eauto|intros; lia].
+  - apply IH in H. destruct H as (d & h0 & Hj & Hn & Hs & Hb).
+    exists (S d), h0. split; [lia|]. split; [exact Hn|]. split; [exact Hs|].
+    intros d' h' Hd Hn' Hsat. destruct d' as [|d']; simpl in Hn'.
+    + inversion Hn'; subst. apply match_complete in Hsat. congruence.
+    + apply (Hb d' h'); [lia|exact Hn'|exact Hsat].
+Qed.
+
+Lemma find_host_none : forall r hs j, find_host r hs j = None -> forall h, In h hs -> ~ satisfies r h.
+Proof.
+  intros r hs; induction hs as [|h hs IH]; intros j H h0 Hin Hsat; [destruct Hin|].
+  cbn [find_host] in H. destruct (match_simple r h) eqn:E; [discriminate|].
+  destruct Hin as [->|Hin].
+  - apply match_complete in Hsat. congruence.
+  - eapply IH; eauto.
+Qed.
+
+Lemma registry_go_singletons : forall rs hs off i j,
+  registry_go (singletons rs) hs off = Some (i, j) ->
+  exists d r h, i = (off + d)%nat /\ nth_error rs d = Some r /\ nth_error hs j = Some h /\ satisfies r h /\
+    (forall d' r' h', (d' < d)%nat -> nth_error rs d' = Some r' -> In h' hs -> ~ satisfies r' h') /\
+    (forall j' h', (j' < j)%nat -> nth_error hs j' = Some h' -> ~ satisfies r h').
+Proof.
+  induction rs as [|r rs IH]; intros hs off i j H; cbn [singletons map registry_go] in H; [discriminate|].
+  rewrite launcher_fn_single in H. destruct (find_host r hs 0) as [j0|] eqn:E.
+  - injection H as Hi0 Hj0. apply find_host_spec in E. destruct E as (d & h & Hj & Hn & Hs & Hb).
+    simpl in Hj. subst. exists 0%nat, r, h.
+    split; [lia|]. split; [reflexivity|]. split; [exact Hn|]. split; [exact Hs|].
+    split; [intros; lia|exact Hb].
+  - fold (singletons rs) in H. apply IH in H. destruct H as (d & r0 & h & Hi & Hr & Hh & Hs & Hb1 & Hb2).
+    exists (S d), r0, h. cbn [length] in Hi.
+    split; [lia|]. split; [exact Hr|]. split; [exact Hh|]. split; [exact Hs|]. split; [|exact Hb2].
+    intros d' r' h' Hd Hn Hin. destruct d' as [|d']; simpl in Hn.
+    + inversion Hn; subst. eapply find_host_none; eauto.
+    + apply (Hb1 d' r' h'); [lia|exact Hn|exact Hin].
+Qed.
+
+Lemma registry_go_singletons_none : forall rs hs off,
+  registry_go (singletons rs) hs off = None -> forall r h, In r rs -> In h hs -> ~ satisfies r h.
+Proof.
+  induction rs as [|r rs IH]; intros hs off H r0 h Hr Hh; [destruct Hr|].
+  cbn [singletons map registry_go] in H. rewrite launcher_fn_single in H.
+  destruct (find_host r hs 0) eqn:E; [discriminate|]. fold (singletons rs) in H.
+  destruct Hr as [->|Hr]; [eapply find_host_none; eauto|eapply IH; eauto].
+Qed.
+
+(* alternatives are tried in the order given: the answer is the first alternative (over all the
+   arguments, in order) that some host satisfies, on the first host that satisfies it *)
+Lemma registry_first : forall args hs i j,
+  registry_find args hs = Some (i, j) ->
+  exists r h, nth_error (all_alts args) i = Some r /\ nth_error hs j = Some h /\ satisfies r h /\
+    (forall i' r' h', (i' < i)%nat -> nth_error (all_alts args) i' = Some r' -> In h' hs -> ~ satisfies r' h') /\
+    (forall j' h', (j' < j)%nat -> nth_error hs j' = Some h' -> ~ satisfies r h').
+Proof.
+  intros args hs i j H. apply registry_go_singletons in H.
+  destruct H as (d & r & h & Hi & H). simpl in Hi. subst d. exists r, h. exact H.
+Qed.
+
+Lemma registry_none : forall args hs,
+  registry_find args hs = None <-> (forall r h, In r (all_alts args) -> In h hs -> ~ satisfies r h).
+Proof.
+  intros args hs. split; [apply registry_go_singletons_none|].
+  intros H. destruct (registry_find args hs) as [[i j]|] eqn:E; [|reflexivity].
+  apply registry_first in E. destruct E as (r & h & Hr & Hh & Hs & _).
+  exfalso. eapply H; eauto using nth_error_In.
+Qed.
+
+(* the way the alternatives are spread over the arguments (one string with |, several strings,
+   objects, a mix) does not matter *)
+Lemma registry_grouping : forall args args' hs,
+  all_alts args = all_alts args' -> registry_find args hs = registry_find args' hs.
+Proof. intros args args' hs H. unfold registry_find. rewrite H. reflexivity. Qed.
+
+(* one union handed to find_launcher ("each host, then each alternative") is a different search:
+   hosts [small; big], request "two 40G GPUs, else one 10G GPU" *)
+Definition reg_alts : list req :=
+  [ {| r_gpus := [40; 40]; r_cpu := dcpu; r_dur := 0 |}; {| r_gpus := [10]; r_cpu := dcpu; r_dur := 0 |} ].
+Definition reg_hosts : list host :=
+  [ {| h_cuda := [{| g_mem := 12; g_min := 0 |}]; h_cpu := {| c_mem := 16; c_cores := 8 |};
+       h_prio := 0; h_maxdur := 0; h_mingpu := 0 |};
+    {| h_cuda := [{| g_mem := 48; g_min := 0 |}; {| g_mem := 48; g_min := 0 |}];
+       h_cpu := {| c_mem := 256; c_cores := 32 |}; h_prio := 0; h_maxdur := 0; h_mingpu := 0 |} ].
+Lemma registry_hostfirst_refuted : exists args hs i j i' j',
+  registry_find args hs = Some (i, j) /\ registry_find_hostfirst args hs = Some (i', j') /\ (i < i')%nat.
+Proof. exists [(false, reg_alts)], reg_hosts, 0%nat, 1%nat, 1%nat, 0%nat. vm_compute. auto. Qed.
+(* registry.py read literally: a RequirementUnion object (a | b) is handed over as one spec, so the
+   programmatic a | b does not mean what the text "a | b" means *)
+Lemma registry_union_object_refuted : exists alts hs,
+  registry_find_objects [(true, alts)] hs <> registry_find_objects [(false, alts)] hs.
+Proof. exists reg_alts, reg_hosts. vm_compute. discriminate. Qed.
+Lemma registry_objects_simple : forall args hs,
+  (forall a, In a args -> fst a = false) -> registry_find_objects args hs = registry_find args hs.
+Proof.
+  intros args hs H. unfold registry_find_objects, registry_find, all_alts. f_equal.
+  induction args as [|[u alts] args IH]; [reflexivity|].
+  pose proof (H (u, alts) (or_introl eq_refl)) as Hu. cbn in Hu. subst u.
+  cbn [flat_map map concat fst snd]. unfold singletons at 3. rewrite map_app.
+  f_equal. apply IH. intros a Ha. apply H. right. exact Ha.
+Qed.
+Example registry_first_nonvacuous : registry_find [(false, reg_alts)] reg_hosts = Some (0%nat, 1%nat).
+Proof. vm_compute. reflexivity. Qed.
